@@ -24,7 +24,7 @@ RULE = ("Hypothesis draws a history: 1-3 inputs (C01's generator incl. the 'sub-
         "into the state as it exists at that step, so every history is executable. Model-based oracle: every render result must "
         "be byte-equal to what a separate child interpreter, which only ever performs single generate+render calls from fresh "
         "registries, returns for the same samples and options; an exception on one side only is a violation. unicode option is "
-        "fixed per registry; nested layout only for tree-shaped graphs. Non-trivial: a compared render happens after another "
+        "fixed per registry; nested layout for tree-shaped and other acyclic graphs (shared models, dotted references). Non-trivial: a compared render happens after another "
         "framework/layout on the same registry, after a failing render, or after a CLI run. distinct = canonical JSON of the history.")
 ASSUMPTIONS = ["the reference child has a history of its own (only clean single calls); a state leak common to both sides and "
                "independent of history would not show", "CLI-after-CLI in one process is not compared (global registry is a CLI concern)"]
@@ -209,7 +209,7 @@ def check(case):
                     r.skip = "pipeline-error:%s@%s" % exc_sig(e)
                     return r
                 from ..findings import all_keys
-                ent = dict(b=b, samples=samples, opts=o, name=root_name, rendered=[], failed=False, tree=pl.is_tree(b.reg),
+                ent = dict(b=b, samples=samples, opts=o, name=root_name, rendered=[], failed=False, tree=pl.is_tree(b.reg) or pl.is_acyclic(b.reg),
                            has_config=any(gen.fold(k) in ("config", "configs") for s in samples for k in all_keys(s)))
                 if len(regs) < 3:
                     regs.append(ent)
@@ -270,7 +270,7 @@ def check(case):
                 except Exception as e:  # noqa: BLE001
                     got = ("exc", exc_sig(e)[0])
                 ent["rendered"].append((ro["fw"], nested))
-                resp = ref_child().ask({"op": "render", "samples": ent["samples"], "opts": ro, "name": ent["name"]})
+                resp = ref_child().ask({"op": "render", "samples": ent["samples"], "opts": ro, "name": ent["name"], "force_nested": nested})
                 exp = ("ok", resp["text"]) if resp["ok"] else ("exc", resp["exc"][0])
                 if got[0] != exp[0]:
                     r.fail("exception-on-one-side", f"step {step} {op}: history {got[0]} {got[1] if got[0] == 'exc' else ''}, fresh {exp[0]} {exp[1] if exp[0] == 'exc' else ''}")
